@@ -40,3 +40,17 @@ func NormErr(s string) (string, error) { return s, nil }
 func PostPet(dst *Pet, src *Pet) {}
 
 func hidden(s string) string { return s }
+
+// Profile is an imported source type with getters.
+type Profile struct {
+	Nick    string
+	inner   Label
+	Visible int
+	score   int
+}
+
+func (p *Profile) Inner() Label       { return p.inner }
+func (p *Profile) Score() int         { return p.score }
+func (p *Profile) hiddenGetter() int  { return p.score }
+func (p Profile) ByValue() string     { return p.Nick }
+func (p *Profile) Failing() (int, error) { return 0, nil }
